@@ -302,6 +302,7 @@ def run(tier):
     finally:
         rmtree(wd)
     # canonical rotation only
+    cycles.sort(key=lambda c: json.dumps(c, sort_keys=True))
     fams = {}
     flats = [c for c in cycles if "list" in c]
     cycles = [c for c in cycles if "cyc" in c]
